@@ -61,6 +61,11 @@ def make(rng, tier, tied_stratum=None, large=None):
     if large:
         lead = () if name != 'gcacgmm' else (1,)
     data = mm.make_data(rng, name, K, D, N, lead, separation=float(rng.choice([1.0, 2.5, 5.0])))
+    if large:
+        # the scene changes late in the recording (sources move): the last quarter comes from other class parameters
+        tail = mm.make_data(rng, name, K, D, N // 4, lead, separation=float(rng.choice([1.0, 2.5, 5.0])))
+        data = {k_: (np.concatenate([v[..., : N - N // 4, :], tail[k_]], axis=-2) if k_ != 'labels' else v)
+                for k_, v in data.items()}
     init = mm.make_init(rng, K, N, lead, 'positive')
     _COUNT[0] += 1
     int_init = name != 'gcacgmm' and _COUNT[0] % 5 == 0
